@@ -270,11 +270,19 @@ class SpecRun:
             self.eval(s); return
         if isinstance(s, ast.Declaration):
             self.newvars[s.var.name] = self.eval_init(s.init); return
-        if isinstance(s, ast.IncAssignment) and isinstance(s.lookup, ast.VariableLookup):
-            s = s.type_equiv_assignment()           # x op= e  ==  x = x op e  (README "Augmented assignments")
         if isinstance(s, ast.Assignment):
             if isinstance(s.lookup, ast.VariableLookup):
-                v = self.eval(s.expr)
+                if isinstance(s, ast.IncAssignment):
+                    # x op= e  ==  x = x op e  (README "Augmented assignments"): the variable is read, then e is evaluated, then the operator
+                    # (written out here, not taken from the compiler's own type_equiv_assignment helper)
+                    old = self.eval(s.lookup)
+                    r = self.eval(s.expr)
+                    op = {ast.Add: 'add', ast.Sub: 'sub', ast.Mul: 'mul', ast.Div: 'div', ast.Mod: 'mod'}[s.bin_op]
+                    if op in ('div', 'mod') and self.decide(r == 0):
+                        self.fault('division_by_zero')
+                    v = self.arith(op, old, r)
+                else:
+                    v = self.eval(s.expr)
                 name = s.lookup.var.name
                 if name in self.newvars:
                     self.newvars[name] = v
